@@ -121,7 +121,7 @@ enum Param {
     EditConfigCombo { candidate: bool, fragment: Option<String>, url: Option<String>, defop: usize, errop: usize, testop: usize },
     /// a caller-supplied payload type whose write_xml fails after having written `written` elements:
     /// the call must fail, nothing may be sent, and nothing may be left behind for later messages
-    FailingPayload { written: usize },
+    FailingPayload { written: usize, via_load: bool },
 }
 
 /// A configuration payload produced from a fallible source.
@@ -170,14 +170,15 @@ impl Param {
             Self::CommitCombo { .. } => "commit/combination",
             Self::JunosCommitCombo { .. } => "commit-configuration/combination",
             Self::EditConfigCombo { .. } => "edit-config/combination",
-            Self::FailingPayload { .. } => "edit-config/failing-payload",
+            Self::FailingPayload { via_load: false, .. } => "edit-config/failing-payload",
+            Self::FailingPayload { via_load: true, .. } => "load-configuration/failing-payload",
         }
     }
 }
 
 fn gen_param(ctx: &mut Ctx) -> Param {
     match ctx.pick(23) {
-        22 => Param::FailingPayload { written: ctx.pick(4) },
+        22 => Param::FailingPayload { written: ctx.pick(4), via_load: ctx.pick(2) == 1 },
         19 => Param::CommitCombo {
             timeout_s: match ctx.pick(4) {
                 0 => None,
@@ -275,7 +276,8 @@ async fn issue(s: &mut Session<SimTransport>, p: &Param) -> Result<(), Error> {
         Param::LoadSet(v) => s.rpc::<LoadConfiguration<_>, _>(|b| b.source(Config::new(v, Text, Set)).finish()).await.map(drop),
         Param::LoadJson(v) => s.rpc::<LoadConfiguration<_>, _>(|b| b.source(Config::new(v, Json, Merge)).finish()).await.map(drop),
         Param::LoadXmlFragment(v) => s.rpc::<LoadConfiguration<_>, _>(|b| b.source(Config::new(Opaque::from(v), Xml, Merge)).finish()).await.map(drop),
-        Param::FailingPayload { written } => s.rpc::<EditConfig<Flaky>, _>(|b| b.target(Datastore::Candidate)?.config(Flaky { written }).finish()).await.map(drop),
+        Param::FailingPayload { written, via_load: false } => s.rpc::<EditConfig<Flaky>, _>(|b| b.target(Datastore::Candidate)?.config(Flaky { written }).finish()).await.map(drop),
+        Param::FailingPayload { written, via_load: true } => s.rpc::<LoadConfiguration<_>, _>(|b| b.source(Config::new(Flaky { written }, Xml, Merge)).finish()).await.map(drop),
         Param::CommitCombo { timeout_s, persist } => s
             .rpc::<Commit, _>(|b| {
                 let mut b = b.confirmed(true)?;
